@@ -18,7 +18,7 @@ from mc.engine import exc_symptom, short_tb
 
 ID = "C14"
 RULE = ("product explorer: (array of a fixed integer-valued family) x (mode n) is one batch case; inside, every "
-        "holder of the SAME array (tensor F/C buffer, sptensor in 2-4 stored orders, ktensor, ttensor with dense and "
+        "holder of the SAME array (tensor F/C buffer and int64 data, sptensor in 2-4 stored orders and with int64 values, ktensor, ttensor with dense and "
         "sparse core; Kruskal/Tucker members also natively) x every r in 1..size(n) x flipsign in {T,F} is one real "
         "nvecs call on a fresh object.  Verdicts are asserted when the reference spectrum has lambda_1 > 0 and a gap "
         "lambda_r - lambda_{r+1} >= 1e-6 lambda_1 (or r = size); other calls are run but counted inadmissible.  "
@@ -35,7 +35,7 @@ BOUNDS = {
     "quick": "21 shapes of order 1-4 (mode sizes 2..6, three with singleton modes, <= 36 cells); 16 array members per shape "
              "(generic, 2 zero patterns, exact rank 1/2, rank 2 + noise, counts with an empty slice, diagonal Gram "
              "ascending/mixed, flat Gram, zero, 3 Kruskal-native, 2 Tucker-native); all modes; all r; both flipsign; "
-             "holders: tensor, sptensor x2 orders, ktensor, ttensor dense core / sparse core / sparse core with "
+             "holders: tensor (float64 and int64 data), sptensor x2 orders (+ int64 values), ktensor, ttensor dense core / sparse core / sparse core with "
              "scipy.sparse factors (+ native)",
     "thorough": "all shapes of order 2-3 with sizes 2..6 and <= 72 cells, order 4 with sizes 2..3 and <= 36 cells, "
                 "1-way sizes 2..6 and 9 shapes with singleton modes; 24-28 members per shape (more seeds, rank 3 + noise, "
@@ -200,7 +200,7 @@ def holder_names(d, tier):
     names.append("tensor:F")
     if tier == "thorough":
         names.append("tensor:C")
-    names += ["sptensor:id", "sptensor:rev"]
+    names += ["tensor:int", "sptensor:id", "sptensor:rev", "sptensor:int"]
     if tier == "thorough":
         names += ["sptensor:rot", "sptensor:swap"]
     names += ["ktensor:cells", "ttensor:id_dense", "ttensor:id_sparse", "ttensor:id_spfac"]
@@ -225,6 +225,16 @@ def build_holder(name, d, A):
         csubs, cv = H.sp_parts(cs, cvals)
         return ttb.ttensor(H.make_sptensor(cs, csubs, cv), [sparse.coo_matrix(f) for f in fs])
     vals = [float(v) for v in rm.vals_f(A)]
+    if how == "int":
+        # the same (integer-valued) array stored with an integer dtype
+        Ai = np.asfortranarray(A.astype(np.int64))
+        if kind == "tensor":
+            return ttb.tensor(Ai)
+        subs, vs = H.sp_parts(shape, vals)
+        if not vs:
+            return ttb.sptensor(shape=tuple(shape))
+        return ttb.sptensor(np.array(subs, dtype=int).reshape(len(vs), len(shape)),
+                            np.array(vs).astype(np.int64).reshape(-1, 1), tuple(shape))
     if kind == "tensor":
         return H.build({"kind": "tensor", "shape": list(shape), "vals": vals, "c_order": how == "C"})
     if kind == "sptensor":
